@@ -72,4 +72,16 @@ static int lst_child(int mode, const seq_t* s)
     }
     return EX_OK;
 }
+#ifndef LST_FUZZ
 int main(void) { return lst_driver_main(); }
+#else
+static void lst_fuzz_one(int mode, const uint8_t* d, size_t n)
+{
+    static int pair[2] = { -1, -1 }; static int tfd = -1;
+    (void)mode;
+    if (pair[0] < 0) { if (make_pair(pair) < 0) abort(); STAILQ_INIT(&samples); tfd = timerfd_create(CLOCK_REALTIME, 0); }
+    if (send(pair[0], d, n, 0) < 0) abort();
+    new_packet(pair[1], tfd);
+    while (!STAILQ_EMPTY(&samples)) { struct sample_entry* e = STAILQ_FIRST(&samples); STAILQ_REMOVE_HEAD(&samples, entries); free(e); }
+}
+#endif
